@@ -286,7 +286,7 @@ func checkC05(c *Check) {
 		for _, u := range p.FieldUses(f) {
 			key := p.FuncKey(u.Fn) + ":status." + u.Kind
 			switch {
-			case u.Kind == "callarg" && strings.HasPrefix(u.Call, "sync/atomic."):
+			case u.Kind == "callarg" && (strings.HasPrefix(u.Call, "sync/atomic.") || strings.HasPrefix(u.Call, "(*sync/atomic.")):
 				c.OK(key, p.Pos(u.Instr.Pos()), u.Call, 1)
 			case u.Kind == "store" && u.Fresh:
 				c.OK(key, p.Pos(u.Instr.Pos()), "initialisation", 1)
